@@ -42,10 +42,11 @@ class Run:
 
 
 def _get(ctx, key, fn):
-    k = (id(ctx), key)
-    if k not in _cache:
-        _cache[k] = fn()
-    return _cache[k]
+    cache = ctx.__dict__.setdefault("_rule_cache", {})
+    k = ("envfacts", key)
+    if k not in cache:
+        cache[k] = fn()
+    return cache[k]
 
 
 def env_types(fi):
